@@ -399,6 +399,26 @@ def m_option_eq(ex, st, args, dty, canon):
     ty = ex._split_as(raw[1:k])[0].lstrip('&').strip()
     a = deref_all(ex, st, args[0])
     b = deref_all(ex, st, args[1])
+    it_ = inner_ty(ty)
+    ith = type_head(it_ or '')
+    if it_ and not (ith in ('Option', 'Duration', 'SystemTime', 'Instant') or it_ in INT_BITS or it_ == 'bool' or is_string_ty(it_) or strip_ref(it_)):
+        # a crate type inside: both None -> equal; both Some -> the type's own eq body; else different
+        da, db = ex.discr_of(st, a, ty).t, ex.discr_of(st, b, ty).t
+        finish = _call_site(ex, st)
+        neg = canon[3] != 'eq'
+        eqf = Obj('fnitem', '<%s as PartialEq>::eq' % it_)
+
+        def both_some(s_):
+            pa, pb = alloc(ex, s_, payload(ex, s_, a, 1, 0, it_), 'eqa'), alloc(ex, s_, payload(ex, s_, b, 1, 0, it_), 'eqb')
+
+            def c2(ex2, s2, r):
+                bb = ex2.as_bool(r)
+                return finish(ex2, s2, Sc(z3.Not(bb) if neg else bb, 'bool'))
+            call_fnlike(ex, s_, eqf, [pa, pb], c2)
+            return NOTHING
+        raise Fork([(z3.And(da == 1, db == 1), both_some),
+                    (z3.And(da == 0, db == 0), lambda s_: Sc(z3.BoolVal(not neg), 'bool')),
+                    (da != db, lambda s_: Sc(z3.BoolVal(neg), 'bool'))])
     e = struct_eq(ex, st, a, b, ty)
     return Sc(e if canon[3] == 'eq' else z3.Not(e), 'bool')
 
@@ -438,6 +458,13 @@ def m_is_success(ex, st, args, dty, canon):
     s = deref_all(ex, st, args[0])
     code = ex.child(st, s, 0, 'u16')
     return Sc(z3.And(code.t >= 200, code.t < 300), 'bool')
+
+
+@pattern(r'^<(http::)?(status::)?StatusCode as PartialEq>::(eq|ne)$')
+def m_status_eq(ex, st, args, dty, canon):
+    a, b = deref_all(ex, st, args[0]), deref_all(ex, st, args[1])
+    e = ex.child(st, a, 0, 'u16').t == ex.child(st, b, 0, 'u16').t
+    return Sc(e if canon[3] == 'eq' else z3.Not(e), 'bool')
 
 
 @pattern(r'^(http::)?(status::)?StatusCode::(is_informational|is_redirection|is_client_error|is_server_error|as_u16)$')
@@ -1232,7 +1259,9 @@ def m_do_omaha_cut(ex, st, args, dty, canon):
     tp = [(k, None) for k in sm.path] + [(k, None) for k in path[:-1]] + [(path[-1], SPI_TY)]
     old = ex.load(st, sm.cell, tp)
     new = Tree({}, nm + '.spi', SPI_TY)
-    ex.store(st, sm.cell, tp, ite_val(ex, st, noresp, old, new, SPI_TY))
+    after = ite_val(ex, st, noresp, old, new, SPI_TY)
+    ex.store(st, sm.cell, tp, after)
+    st.extra[('spi_after_exchange', nm)] = after      # for monitors: what the exchange left in the context
     # contract: with a handler configured and metadata present a response is returned only if verified;
     # nothing else of the context changes.
     return fut('ready', res)
@@ -1391,6 +1420,7 @@ def install_select(ex):
         (r'^(std::task::)?Poll::<.*>::map::<.*>$', m_poll_map),
         (r'async_await::random::shuffle::<.*>$', m_shuffle),
         (r' as StreamExt>::select_next_some$', m_select_next_some),
+        (r' as StreamExt>::next$', m_stream_next),
         (r'^(futures::channel::)?oneshot::Sender::<.*>::send$|oneshot::Sender::<.*>::send$', m_oneshot_send),
         (r'async_await::assert_(fused_future|unpin|fused_stream)::<.*>$', lambda ex, st, args, dty, canon: UNIT),
     ]
@@ -1420,8 +1450,8 @@ def m_is_terminated(ex, st, args, dty, canon):
     v, p = _fut_at(ex, st, args[0])
     if isinstance(v, Obj) and v.kind == 'fut' and v.data[0] == 'fuse':
         return Sc(z3.BoolVal(bool(v.data[2])), 'bool')
-    if isinstance(v, Obj) and v.kind == 'fut' and v.data[0] == 'select_next':
-        return Sc(z3.BoolVal(False), 'bool')
+    if isinstance(v, Obj) and v.kind == 'fut' and v.data[0] in ('select_next', 'stream_next'):
+        return Sc(z3.BoolVal(bool(st.extra.get('ctl_closed'))), 'bool')      # a closed channel is a terminated stream
     raise Inconclusive('is_terminated on %r' % (v,))
 
 
@@ -1475,6 +1505,11 @@ def m_shuffle(ex, st, args, dty, canon):
 
 def m_select_next_some(ex, st, args, dty, canon):
     return Obj('fut', ('select_next', args[0]))
+
+
+def m_stream_next(ex, st, args, dty, canon):
+    """`stream.next()` on the control channel: like select_next_some, but a closed channel yields None"""
+    return Obj('fut', ('stream_next', args[0]))
 
 
 def m_oneshot_send(ex, st, args, dty, canon):
@@ -1539,23 +1574,42 @@ def poll2(ex, st, fv, fptr, cx, cont, out_ty=None):
                     return cont(ex3, s3, ready(r))
                 return call_fnlike(ex2, s2, clo, [payload(ex2, s2, pv, 0, 0)], after2)
             return poll2(ex, st, deref(ex, st, inner_p), inner_p, cx, after, out_ty)
-        if k == 'select_next':
+        if k in ('select_next', 'stream_next'):
             n = st.extra.get('nctl', 0)
             mx = ex.cfg.get('max_control_requests', 1)
+            as_opt = (k == 'stream_next')
+
             def ctl_pending(s):
                 s.extra['ctl_polls'] = s.extra.get('ctl_polls', 0) + 1     # the channel was listened to in this poll
                 cont(ex, s, pending())
                 return NOTHING
+            if st.extra.get('ctl_closed'):
+                # every handle is gone: select_next_some never completes, next() keeps returning None
+                if as_opt:
+                    return cont(ex, st, ready(none()))
+                return ctl_pending(st)
             alts = [(None, ctl_pending)]
-            if n < mx:
+            ctl_pol = ex.cfg.get('ctl_policy')        # exploration plans may pin when requests arrive
+            if n < mx and (ctl_pol is None or ctl_pol(st, n)):
                 def got(s, n=n):
                     s.extra['ctl_polls'] = s.extra.get('ctl_polls', 0) + 1
                     s.extra['nctl'] = n + 1
                     req = Tree({}, 'ctl%d' % n, 'state_machine::ControlRequest')
                     s.trace.append(Event('env', 'control-request', (req,), 'ctl%d' % n))
-                    cont(ex, s, ready(req))
+                    cont(ex, s, ready(some(req) if as_opt else req))
                     return NOTHING
                 alts.append((None, got))
+            if ex.cfg.get('control_may_close'):
+                def closed(s):
+                    s.extra['ctl_polls'] = s.extra.get('ctl_polls', 0) + 1
+                    s.extra['ctl_closed'] = True
+                    s.trace.append(Event('env', 'control-closed', (), 'ctlclosed'))
+                    if as_opt:
+                        cont(ex, s, ready(none()))
+                    else:
+                        cont(ex, s, pending())
+                    return NOTHING
+                alts.append((None, closed))
             raise Fork(alts)
         if k == 'pendable':
             name, val = fv.data[1], fv.data[2]
@@ -1887,6 +1941,41 @@ def m_slice_first(ex, st, args, dty, canon):
     if n == 0:
         return none()
     return some(Ptr(p.cell, p.path + ((0 if canon[3] == 'first' else n - 1),)))
+
+
+@pattern(r'^<impl \[(.*)\]>::contains$|^core::slice::<impl \[(.*)\]>::contains$|^Vec::<(.*)>::contains$')
+def m_slice_contains(ex, st, args, dty, canon):
+    """membership decided with the element type's own equality: integers / strings directly, other types through
+    their `PartialEq::eq` body in the crate"""
+    p = as_ptr(ex, st, args[0], 'slice::contains')
+    v = deref(ex, st, p)
+    if isinstance(v, Ptr):
+        p = v
+        v = deref(ex, st, p)
+    n = vec_len(ex, st, v)
+    m_ = re.search(r'\[(.*)\]>::contains$|Vec::<(.*)>::contains$', canon[4])
+    ety = (m_.group(1) or m_.group(2) or '').strip()
+    needle = args[1]
+    finish = _call_site(ex, st)
+    if ety in INT_BITS or ety in ('String', 'std::string::String', '&str', 'bool', 'char'):
+        nd = deref_all(ex, st, needle)
+        nt = nd.t if isinstance(nd, Sc) else as_str(ex, st, nd).t
+        terms = []
+        for i in range(n):
+            e_ = deref_all(ex, st, ex.child(st, v, i, ety))
+            terms.append((e_.t if isinstance(e_, Sc) else as_str(ex, st, e_).t) == nt)
+        return Sc(z3.Or([z3.BoolVal(False)] + terms), 'bool')
+    eqf = Obj('fnitem', '<%s as PartialEq>::eq' % ety)
+
+    def step(ex2, s2, i, acc):
+        if i >= n:
+            return finish(ex2, s2, Sc(z3.simplify(acc), 'bool'))
+
+        def c2(ex3, s3, r):
+            return step(ex3, s3, i + 1, z3.Or(acc, ex3.as_bool(r)))
+        return call_fnlike(ex2, s2, eqf, [Ptr(p.cell, p.path + (i,)), needle], c2)
+    step(ex, st, 0, z3.BoolVal(False))
+    return NOTHING
 
 
 @pattern(r'^<impl \[.*\]>::(get|get_mut)::<usize>$|^core::slice::<impl \[.*\]>::(get|get_mut)::<usize>$|^Vec::<.*>::(get|get_mut)::<usize>$')
